@@ -35,3 +35,81 @@ CALLSITES = {
         },
     },
 }
+
+
+# ---------------------------------------------------------------- identity bases in msm_by_bounded_scalars
+# "In order to support the identity point for some bases, we select in-circuit based on the value of
+# is_id and put a 0 scalar and an arbitrary non-id point (e.g. the generator) for the base when is_id
+# equals 1."  Contract on the two selects of the loop body (statement-range slice, executed symbolically
+# with select(c, x, y) = c*x + (1-c)*y field-wise): the term s*B of the sum is preserved --
+#   is_id = 1:  the scalar becomes 0 (so the substituted base contributes the identity, like B);
+#   is_id = 0:  scalar and base are unchanged.
+import sympy as sp
+
+from polyvc import Env, Opt, Struct, Tuple, Unsupported
+
+TRUE = ("const", True)
+
+
+def _sel(c, x, y):
+    return sp.expand(c * x + (1 - c) * y)
+
+
+def _msm_env():
+    env = Env()
+
+    def select_point(en, r, a):
+        if len(a) != 4 or not is_point(a[2]) or not is_point(a[3]) or not isinstance(a[1], sp.Expr):
+            raise Unsupported("ForeignEccChip::select on unexpected arguments")
+        c, p, q = a[1], a[2], a[3]
+        return Opt(Struct("Point", {k: _sel(c, p.fields[k], q.fields[k]) for k in ("x", "y", "is_id")}), TRUE)
+
+    def select_scalar(en, r, a):
+        if len(a) != 4 or not all(isinstance(v, sp.Expr) for v in a[1:]):
+            raise Unsupported("scalar select on unexpected arguments")
+        return Opt(_sel(a[1], a[2], a[3]), TRUE)
+    env.calls[("Ok",)] = lambda en, a: Opt(a[0], TRUE)
+    env.methods[("EccChip", "select")] = select_point
+    env.methods[("ScalarChip", "select")] = select_scalar
+    return env
+
+
+def is_point(v):
+    return isinstance(v, Struct) and v.ty == "Point"
+
+
+def _msm_inputs():
+    pt = lambda n, idv: Struct("Point", {"x": sp.Symbol(n + "_x"), "y": sp.Symbol(n + "_y"), "is_id": idv})
+    return {"self": Struct("EccChip", {}), "scalar_chip": Struct("ScalarChip", {}), "layouter": Struct("Opaque", {"_name": "layouter"}),
+            "b": pt("b", sp.Symbol("b_is_id")), "g": pt("g", sp.Integer(0)),      # the generator is not the identity
+            "zero": sp.Integer(0), "s": Tuple([sp.Symbol("s"), sp.Symbol("s_bound")])}
+
+
+def _msm_goals(env, out, loc):
+    new_s, new_b = out.value.items
+    b = loc["b"]
+    goals = []
+    if env.case.get("b_is_id") == 1:
+        goals.append(("identity base: the scalar is zeroed", new_s))
+        goals.append(("identity base: the substituted base is not flagged identity", new_b.fields["is_id"]))
+    else:
+        goals.append(("proper base: scalar unchanged", sp.expand(new_s - loc["s"].items[0])))
+        for k in ("x", "y", "is_id"):
+            goals.append(("proper base: base unchanged (%s)" % k, sp.expand(new_b.fields[k] - b.fields[k])))
+    return goals
+
+
+FUNCTIONS = {
+    "msm_by_bounded_scalars.identity_bases": {
+        "item": ["impl<F, C, B, S, N> EccInstructions<F, C> for ForeignEccChip<F, C, B, S, N>", "fn msm_by_bounded_scalars"],
+        "capture": r"for \(s, b\) in scalars\.iter\(\)\.zip\(bases\.iter\(\)\) \{ (let new_b = .*?; let new_s = .*?;) non_id_bases\.push",
+        "wrap": "%s Ok((new_s, new_b))",
+        "env": _msm_env, "inputs": _msm_inputs,
+        "hyps": lambda loc: [],
+        "cases": [{"name": "is_id=1: ", "case": {"b_is_id": 1}, "hyps": lambda loc: [loc["b"].fields["is_id"] - 1]},
+                  {"name": "is_id=0: ", "case": {"b_is_id": 0}, "hyps": lambda loc: [loc["b"].fields["is_id"]]}],
+        "goals": _msm_goals,
+        "props": ["C06"], "witness": "msm_by_bounded_scalars", "needs_witness": True,
+        "clause": "the identity-base rewrite of msm_by_bounded_scalars preserves every term s*B of the sum: for an identity base the scalar becomes 0 and the substituted base is a proper point; for a proper base scalar and base are unchanged (select(c, x, y) = c*x + (1-c)*y field-wise)",
+    },
+}
